@@ -114,7 +114,7 @@ def run(ctx):
         _fn_some(phn, d) or
         # `path_bytes.last().is_some_and(|trailing| !is_separator(..) && path.file_name().is_some())`: true only through the closure, whose every
         # non-false result is the same file_name().is_some()
-        ((not isinstance(d[3], dict)) and d[3].is_(r"Option(<[^>]*>)?::is_some_and$") and all(bool(_truthy(cb)) and all(_fn_some(cb, d2) for d2 in _truthy(cb)) for cb in closure_bodies(fx, d[3])[-1:]) and bool(closure_bodies(fx, d[3])))
+        ((not isinstance(d[3], dict)) and d[3].is_(r"Option(<[^>]*>)?::is_some_and$") and all(bool(_truthy(cb)) and all(_fn_some(cb, d2) for d2 in _truthy(cb)) for cb in own_closures(fx, d[3])) and bool(closure_bodies(fx, d[3])))
         for d in truthy)
     res.check(okl, "R18.2", "lemma|path_has_name=>file_name-is-some", phn.where(), "every non-false result of path_has_name is path.file_name().is_some()",
               "path_has_name can return true without path.file_name().is_some() (%s): split_file_name's expect(\"not called with `..`\") panics for words ending in `.` / `..`" % [
